@@ -54,7 +54,7 @@ func exec(c vh.ShimCase) (vh.Outcome, error) {
 const rule = "histories of 1..30 operations (add key / certificate+key / hardware certificate, remove, remove-all, list, signers, sign, sign through a signer, out-of-band additions and removals on the keyring, lapse = sleep until a lapsing certificate is definitely past) over certificates that are current, forever (CertTimeInfinity), past (an hour ago; five seconds ago), future (in an hour; in 25 seconds), zero-window, ValidAfter > MaxInt64, ValidBefore > MaxInt64, and (in the dedicated lapse check) lapsing within 2 s; held in memory, in the keyring or both; both upstream modes. Oracle: reference model of the documented purge (orphans judged against the reported list, nothing dropped on an empty report, then expiry) over the directly observed keyring; listings compared as multisets; keyring content after every listing-type operation; signing with a certificate outside its window must fail; forever certificates still listed at the end. Time is sound: fixed classes are >= 1 h from an edge, a lapsing certificate is either >= 1 s before or definitely past its edge at each step, otherwise the history is abandoned (class time-ambiguous-abandoned). Non-trivial: the model purged a certificate or took an orphan decision with a non-empty report."
 
 func TestC07Purge(t *testing.T) {
-	vh.Run(t, vh.Spec[vh.ShimCase]{Property: "C07", Name: "TestC07Purge", Rule: rule,
+	vh.Run(t, vh.Spec[vh.ShimCase]{Property: "C07", Name: "TestC07Purge", Rule: rule + vh.ShimGenNote,
 		Gen: func(t *rapid.T) vh.ShimCase { return vh.GenShimCase(t, profile()) }, Exec: exec})
 }
 
